@@ -1,2 +1,6 @@
 from p_pool import Pool, make
-PLUGIN = make("C14")
+from p_ckphase import with_ckphase
+
+# pool histories (M-POOL, one environment step per dial) + the two-phase dial of one origin (M-CKPHASE: a poll can find
+# "transport connected, handshake pending")
+PLUGIN = with_ckphase(make("C14"))
